@@ -77,6 +77,15 @@ func jobsFor(id, tier string) []*Job {
 	}
 	_ = wmk
 	switch id {
+	case "C03":
+		var bp [][]int
+		for np := 0; np <= 3; np++ {
+			for nk := 0; nk <= 2; nk++ {
+				bp = append(bp, []int{np, nk})
+			}
+		}
+		add(split(wmk("bind", "zzverifw.H_C03_bind", bp))...)
+		add(split(wmk("scope", "zzverifw.H_C03_scope", ints(0, 13)))...)
 	case "C04":
 		nmax := 2
 		if thorough {
@@ -227,6 +236,8 @@ func assumptionsFor(id string) []string {
 		"harness oracles written from the property statement and docs (DESIGN.md Appendix B)",
 	}
 	switch id {
+	case "C03":
+		return append(common, "binding oracle: parameter i <- argument i or nil; keyword <- passed value or default; \\0 = the arguments (padded with nil up to the parameter count, as the implementation documents), \\_ = exactly the passed keywords, \\N / \\ / \\name defined only for what was received", "scoping scenarios are fixed programs with two symbolic int inputs; expected values are closed-form")
 	case "C04":
 		return append(common, "elements are children of a prototype whose method act / comb behaves by data: raises ValueErr for a negative payload, returns nil for 0, a value otherwise — so value / nil / raise at every element position is a solver choice; elements may also be nil (lonely chains)", "reference = DESIGN.md Appendix B (C04); the lonely reduce chain is excluded as the statement says")
 	case "C09":
@@ -262,6 +273,9 @@ func assumptionsFor(id string) []string {
 func boundsFor(id, tier string, jobs []*Job) map[string]interface{} {
 	b := map[string]interface{}{"tier": tier}
 	switch id {
+	case "C03":
+		b["binding"] = "0..3 positional and 0..2 keyword parameters (all 12 signatures) x 0..4 positional arguments (tail optionally as *[...]) x each of k1, k2 and the unknown zz absent / before the positionals / after them / through **{...} (solver choices)"
+		b["scoping"] = "14 scenarios (closure sees later reassignment, never the caller's scope, assignment and compound assignment stay local, sibling isolation, recursion frames, shadowing, function-making functions, receiver first, receiver-less chain, fresh frame per call, closures made in a chain, nested closures, method scope) with inputs a, b any int in (-10^6, 10^6)"
 	case "C04":
 		if tier == "thorough" {
 			b["elements"] = "arrays of 1..3 elements"
@@ -359,6 +373,8 @@ func boundsFor(id, tier string, jobs []*Job) map[string]interface{} {
 
 func outsideFor(id string) []string {
 	switch id {
+	case "C03":
+		return []string{"pattern-matching parameters (unimplemented in the code)", "programs outside the scenario list (no generated-program reference evaluator was built)", "duplicate keyword arguments (C08)", "iterators' recur arguments", "more than 4 positional arguments or 3 keywords"}
 	case "C04":
 		return []string{"lonely reduce chain &$ (excluded by the statement)", "chain arguments other than [] (obj / map digest need pair-shaped results)", "receivers whose _iter is user-defined", "more elements than the bound", "keyword arguments in chained calls"}
 	case "C09":
